@@ -43,6 +43,18 @@ Definition param_name (p : stmt) : list string :=
 
 Definition param_names (ps : list stmt) : list string := flat_map param_name ps.
 
+Lemma param_names_cons p ps : param_names (p :: ps) = param_name p ++ param_names ps.
+Proof. reflexivity. Qed.
+
+Lemma param_name_le p : (List.length (param_name p) <= 1)%nat.
+Proof. destruct p; simpl; auto. destruct name; simpl; auto. Qed.
+
+Lemma param_names_le ps : (List.length (param_names ps) <= List.length ps)%nat.
+Proof.
+  induction ps as [|p r IH]; [simpl; auto|]. rewrite param_names_cons, app_length. simpl.
+  pose proof (param_name_le p). lia.
+Qed.
+
 (** * Environment facts *)
 
 Lemma lookup_set_var x y d e :
@@ -108,7 +120,8 @@ Section INVARIANT.
     induction n as [|n IH]; intros s st K Pst; [exact I|].
     destruct (is_atomic s) eqn:A.
     { rewrite exec_atomic by exact A. now apply H_atomic. }
-    destruct s; try discriminate A; simpl.
+    destruct s as [name t | tgt val | tgt val | statements c | condition s1 s2 | condition s | e | e];
+      try discriminate A; simpl.
     - (* Block *)
       apply ok_block in K.
       match goal with |- good (?go statements st []) =>
@@ -254,3 +267,156 @@ Proof.
   destruct (typed _ c) eqn:T; try discriminate. intros H; inv H.
   destruct (b_float blk); destruct v; simpl in T; try discriminate; exact I.
 Qed.
+
+Lemma bin2_inv op ra rb v tr : bin2 op ra rb = Ok (v, tr) ->
+  exists a t1 b t2, ra = Ok (a, t1) /\ rb = Ok (b, t2) /\ op a b = Ok v.
+Proof.
+  unfold bin2, bind. destruct ra as [[a t1]|]; try discriminate.
+  destruct rb as [[b t2]|]; try discriminate. destruct (op a b) eqn:O; try discriminate.
+  intros H; inv H. eauto 8.
+Qed.
+
+(** only [tgt->dimensions] evaluates to a dimensions handle *)
+Definition not_dims (v : value) : Prop := match v with VDims _ => False | _ => True end.
+
+Lemma arith_not_dims iop fop p a b v : arith iop fop p a b = Ok v -> not_dims v.
+Proof.
+  unfold arith, bind. destruct a, b; try discriminate;
+    repeat match goal with |- context [match ?X with _ => _ end] => destruct X; try discriminate end;
+    intros H; inv H; exact I.
+Qed.
+
+Lemma cmp_not_dims op a b v : cmp op a b = Ok v -> not_dims v.
+Proof. unfold cmp. destruct a, b; try discriminate. intros H; inv H. exact I. Qed.
+
+Lemma sel_not_dims op a b v : sel op a b = Ok v -> not_dims v.
+Proof. unfold sel. destruct a, b; try discriminate. intros H; inv H. exact I. Qed.
+
+Lemma index_value_not_dims st v i r tr : index_value st v i = Ok (r, tr) -> not_dims r.
+Proof.
+  unfold index_value, bind. destruct v, i; try discriminate.
+  - destruct (load st blk (off + z)) eqn:L; try discriminate. intros H; inv H.
+    apply load_shape in L. destruct r; tauto.
+  - destruct (tensor_of st t); try discriminate. destruct (nthZ_opt _ _); try discriminate.
+    destruct (chk32 _); try discriminate. intros H; inv H. exact I.
+  - intros H; inv H. exact I.
+  - destruct (tensor_of st t); try discriminate.
+    destruct (nthZ_opt _ _) as [[p c]|]; try discriminate.
+    destruct (negb (is_ptr p && is_ptr c)) eqn:P; try discriminate.
+    apply negb_false_iff in P. apply andb_prop in P. destruct P as [P1 P2].
+    destruct (z =? 0); [intros H; inv H; destruct r; try discriminate; exact I|].
+    destruct (z =? 1); [intros H; inv H; destruct r; try discriminate; exact I|discriminate].
+Qed.
+
+Lemma attribute_value_dims st v a t : attribute_value st v a = Ok (VDims t) ->
+  String.eqb a "dimensions" = true /\ v = VTensor t.
+Proof.
+  unfold attribute_value, bind. destruct v; try discriminate.
+  destruct (String.eqb a "dimensions"); [intros H; inv H; auto|].
+  destruct (String.eqb a "indices"); try discriminate.
+  destruct (String.eqb a "vals"); try discriminate.
+  destruct (tensor_of st t0) as [ts|]; try discriminate.
+  destruct (is_ptr (t_vals ts)) eqn:P; try discriminate. intros H. injection H as H.
+  rewrite H in P. discriminate.
+Qed.
+
+Lemma eval_dims_shape st e t tr : eval st e = Ok (VDims t, tr) ->
+  match e with AttributeAccess _ a => String.eqb a "dimensions" = true | _ => False end.
+Proof.
+  destruct e; simpl; intros H;
+    try (apply bin2_inv in H; destruct H as (a & t1 & b & t2 & _ & _ & Hop);
+         first [apply arith_not_dims in Hop | apply cmp_not_dims in Hop | apply sel_not_dims in Hop];
+         exact Hop);
+    try discriminate.
+  - destruct (lookup name (env st)) as [[ty [w|]]|]; try discriminate.
+    destruct (typed ty w) eqn:T; try discriminate. inv H. apply typed_shape in T. exact T.
+  - unfold bind in H. destruct (eval st e) as [[w t1]|]; try discriminate.
+    destruct (attribute_value st w attribute) eqn:A; try discriminate. inv H.
+    apply attribute_value_dims in A. tauto.
+  - unfold bind in H. destruct (eval st e1) as [[w t1]|]; try discriminate.
+    destruct (eval st e2) as [[i t2]|]; try discriminate.
+    destruct (index_value st w i) as [[r t3]|] eqn:IX; try discriminate. inv H.
+    apply index_value_not_dims in IX. exact IX.
+  - unfold bind in H. destruct (chk32 value); discriminate.
+  - unfold bind in H. destruct (chkfin value); discriminate.
+  - unfold bind in H. destruct (eval st e1) as [[a t1]|]; try discriminate.
+    destruct (as_bool a) as [[|]|]; try discriminate.
+    destruct (eval st e2) as [[b t2]|]; try discriminate. destruct (as_bool b); discriminate.
+  - unfold bind in H. destruct (eval st e1) as [[a t1]|]; try discriminate.
+    destruct (as_bool a) as [[|]|]; try discriminate.
+    destruct (eval st e2) as [[b t2]|]; try discriminate. destruct (as_bool b); discriminate.
+  - unfold bind in H. destruct (eval st e) as [[a t1]|]; try discriminate.
+    destruct (as_bool a); discriminate.
+Qed.
+
+(** * A generic lock-step principle for two runs of the same statement *)
+
+Section SIMULATION.
+  Variable R : state -> state -> Prop.
+  Variable ok : stmt -> bool.
+  Variable cok : expr -> bool.
+
+  Definition osim (o1 o2 : outcome) : Prop :=
+    match o1, o2 with
+    | Normal s1 t1, Normal s2 t2 => R s1 s2 /\ t1 = t2
+    | Returned s1 v1 t1, Returned s2 v2 t2 => R s1 s2 /\ v1 = v2 /\ t1 = t2
+    | Fail a, Fail b => a = b
+    | OutOfFuel, OutOfFuel => True
+    | _, _ => False
+    end.
+
+  Hypothesis R_tick : forall a b, R a b -> R (tick a) (tick b).
+  Hypothesis ok_block : forall ss c, ok (Block ss c) = true -> forallb ok ss = true.
+  Hypothesis ok_branch : forall c a b, ok (Branch c a b) = true -> cok c = true /\ ok a = true /\ ok b = true.
+  Hypothesis ok_loop : forall c b, ok (Loop c b) = true -> cok c = true /\ ok b = true.
+  Hypothesis H_cond : forall c s1 s2, cok c = true -> R s1 s2 -> eval s1 c = eval s2 c.
+  Hypothesis H_atomic : forall s s1 s2, is_atomic s = true -> ok s = true -> R s1 s2 ->
+    osim (exec 1 s s1) (exec 1 s s2).
+
+  Theorem exec_simulation n : forall s s1 s2, ok s = true -> R s1 s2 -> osim (exec n s s1) (exec n s s2).
+  Proof.
+    induction n as [|n IH]; intros s s1 s2 K Rs; [exact I|].
+    destruct (is_atomic s) eqn:A.
+    { rewrite (exec_atomic n s s1 A), (exec_atomic n s s2 A). now apply H_atomic. }
+    destruct s as [name t | tgt val | tgt val | ss c | c a b | c body | e | e]; try discriminate A; simpl.
+    - (* Block *)
+      apply ok_block in K.
+      match goal with |- osim (?go ss s1 []) _ =>
+        assert (G : forall l a b tr, forallb ok l = true -> R a b -> osim (go l a tr) (go l b tr)) end.
+      { induction l as [|x r IHl]; intros a b tr Kl Rab; simpl; auto.
+        simpl in Kl. apply andb_prop in Kl. destruct Kl as [K1 Kr].
+        pose proof (IH x a b K1 Rab) as H1.
+        destruct (exec n x a) as [a' t1|a' v t1|e1|], (exec n x b) as [b' t2|b' w t2|e2|];
+          simpl in H1; try tauto.
+        - destruct H1 as [R' ->]. apply IHl; auto.
+        - destruct H1 as (R' & -> & ->). simpl. auto. }
+      apply G; auto.
+    - (* Branch *)
+      apply ok_branch in K. destruct K as (Kc & Ka & Kb).
+      rewrite (H_cond c s1 s2 Kc Rs).
+      destruct (eval s2 c) as [[v t1]|x]; simpl; auto.
+      destruct (as_bool v) as [[|]|x]; simpl; auto.
+      + pose proof (IH a s1 s2 Ka Rs) as H.
+        destruct (exec n a s1), (exec n a s2); simpl in *; try tauto.
+        * destruct H as [? ->]. auto.
+        * destruct H as (? & -> & ->). auto.
+      + pose proof (IH b s1 s2 Kb Rs) as H.
+        destruct (exec n b s1), (exec n b s2); simpl in *; try tauto.
+        * destruct H as [? ->]. auto.
+        * destruct H as (? & -> & ->). auto.
+    - (* Loop *)
+      pose proof (ok_loop _ _ K) as [Kc Kb].
+      rewrite (H_cond c s1 s2 Kc Rs).
+      destruct (eval s2 c) as [[v t1]|x]; simpl; auto.
+      destruct (as_bool v) as [[|]|x]; simpl; auto.
+      pose proof (IH body s1 s2 Kb Rs) as H.
+      destruct (exec n body s1) as [a' t2|a' r2 t2|e1|], (exec n body s2) as [b' t3|b' r3 t3|e2|];
+        simpl in H; try tauto.
+      + destruct H as [R' ->].
+        pose proof (IH (Loop c body) (tick a') (tick b') K (R_tick _ _ R')) as H2.
+        destruct (exec n (Loop c body) (tick a')), (exec n (Loop c body) (tick b')); simpl in *; try tauto.
+        * destruct H2 as [? ->]. auto.
+        * destruct H2 as (? & -> & ->). auto.
+      + destruct H as (? & -> & ->). simpl. auto.
+  Qed.
+End SIMULATION.
